@@ -535,6 +535,33 @@ def _domain_given(prog):
     return domain_given(prog)
 
 
+def qc_entry(prog: Program) -> RuleResult:
+    """an(entity, quantification=c) is where a constraint enters: c reaches the quantifier as it was given.  An entry point that drops or
+    replaces a constraint it considers 'trivial' (a bound of 0 constrains nothing - true for AtLeast only) turns AtMost(0) / Exactly(0) into
+    no constraint at all."""
+    r = RuleResult("QC-ENTRY", "the constraint given to an() reaches the quantifier unchanged", floor=1)
+    mod = [m for m in prog.modules.values() if m.name.endswith("entity_query_language.quantify_entity")]
+    if not mod:
+        raise AnalysisError("QC-ENTRY: quantify_entity.py vanished")
+    n = 0
+    for f in [f for f in prog.functions.values() if f.module is mod[0] and f.cls is None]:
+        qp = [p for p in f.params if "quantification" in p]
+        if not qp:
+            continue
+        n += 1
+        q = qp[0]
+        rebinds = [x for x in walk_local(f.node) if isinstance(x, (ast.Assign, ast.AugAssign, ast.AnnAssign)) and any(isinstance(t, ast.Name) and t.id == q for t in (x.targets if isinstance(x, ast.Assign) else [x.target]))]
+        passes = [c for c in calls_in(f.node) if any(isinstance(a, ast.Name) and a.id == q for a in list(c.args) + [k.value for k in c.keywords])]
+        cond = [x for x in walk_local(f.node) if isinstance(x, ast.IfExp) and any(isinstance(y, ast.Name) and y.id == q for y in ast.walk(x)) and any(x is k.value or x in c.args for c in calls_in(f.node) for k in c.keywords)]
+        r.check(bool(passes) and not rebinds and not cond, f"{f.short}#constraint-handed-on", site(f, (rebinds or cond or [f.node])[0]), src((rebinds or cond or passes or [f.node])[0])[:80],
+                f"`{q}` is passed on as it was given",
+                f"`{src((rebinds or cond)[0])[:70] if (rebinds or cond) else 'the constraint is not passed on'}`: the constraint the caller gave is replaced before it reaches the quantifier - an upper "
+                "bound of 0 (AtMost(0), Exactly(0)) is never enforced, every solution is handed out")
+    if n < 1:
+        raise AnalysisError("QC-ENTRY: no entry point takes a quantification constraint")
+    return r
+
+
 def run(prog: Program, tier: str) -> List[RuleResult]:
     # thorough: every cell is witnessed by all integer models up to 8 instead of 4 (same cells: the ordering domain is finite)
-    return [guard(lambda: qc_table(prog, 9 if tier == "thorough" else 4)), guard(lambda: qc_ctor(prog)), guard(lambda: qc_path(prog)), guard(lambda: qc_map(prog)), guard(lambda: qc_errors(prog)), guard(lambda: _opt_truth(prog)), guard(lambda: _domain_cache(prog)), guard(lambda: _hv_truth(prog)), guard(lambda: _domain_given(prog))]
+    return [guard(lambda: qc_table(prog, 9 if tier == "thorough" else 4)), guard(lambda: qc_ctor(prog)), guard(lambda: qc_path(prog)), guard(lambda: qc_map(prog)), guard(lambda: qc_errors(prog)), guard(lambda: _opt_truth(prog)), guard(lambda: _domain_cache(prog)), guard(lambda: _hv_truth(prog)), guard(lambda: _domain_given(prog)), guard(lambda: qc_entry(prog))]
